@@ -295,10 +295,7 @@ async fn stream_to_udp(
             }
         };
 
-        if payload.is_empty() {
-            tracing::debug!("[UDP] Empty packet, stream might be closed");
-            break;
-        }
+        // A zero-length datagram is a datagram like any other: it is forwarded, it does not end the association
 
         tracing::trace!(
             "[UDP] Stream → UDP: {} bytes to {}",
